@@ -1,16 +1,15 @@
-"""C07 — compiled stylesheets and parsed sources can be shared by concurrent threads (DESIGN.md §5 C07).
+"""C07 — compiled stylesheets and parsed sources can be shared by concurrent threads (DESIGN.md §5 C07; design/C07.md).
 
-proof:          lean/XalanModel/Props/C07.lean — non-interference and race freedom for every machine / thread
-                count / program / schedule (induction on the schedule), discharged for the machine whose shared cells
-                are the write channels found in the current source (`decide` over the regenerated table).
-translator:     translate/c07_share.py -> Generated/C07_Share.lean (mutable members, const_casts, non-const calls
-                through pointer members from const members, local statics, process-wide statics, in the classes
-                reachable from StylesheetRoot / XalanSourceTreeDocument / XercesDocumentWrapper).
-correspondence: harness/c07_threads.cpp built (a) against a ThreadSanitizer build of the working tree: N threads, own
-                XalanTransformer each, cold shared compiled stylesheets / parsed sources; any TSan report in a mode the
-                model calls safe is a concrete violation; the modes the model calls racy are run as negative controls
-                and must be reported, in the functions the model names; (b) against the normal build at higher
-                thread/round counts.  Every thread's output is byte-compared with a sequential run on private objects.
+proof:          lean/XalanModel/Props/C07.lean — non-interference and race freedom for every machine / thread count / program /
+                schedule (induction on the schedule); discharged by `decide` for the machine whose shared cells are the write
+                channels of the current source and for the process-wide variables reachable from the per-thread objects.
+translator:     translate/c07_share.py (+ translate/c07_allow.tsv, the hand-kept classification) -> Generated/C07_Share.lean;
+                translate/_c07_ast.py = clang AST cross-check (thorough tier).
+correspondence: harness/c07_threads.cpp built against a ThreadSanitizer build of the working tree and against the normal build:
+                N threads, own XalanTransformer each (privately configured in `+cfg` runs), cold shared compiled stylesheets /
+                parsed sources; outputs byte-compared with a sequential run on private objects; any TSan report in a checked
+                mode is a concrete violation; the modes the model calls racy are negative controls.
+setup():        pre-builds the TSan tree, the normal tree and both harness binaries (for `./check --setup`).
 """
 import json
 import os
@@ -28,28 +27,35 @@ _spec.loader.exec_module(gen)
 
 CLAIMED = True
 LEVEL = "proof"
-TECHNIQUE = ("Lean 4 proof of non-interference and race freedom under read-only sharing (any schedule), instantiated by "
-             "`decide` over an access table regenerated from the source on every run, + ThreadSanitizer correspondence run "
-             "(model's race predictions vs. observed reports, outputs vs. sequential run)")
-LEVEL_TEXT = ("Machine-checked: for every machine, thread count, program and schedule, if steps change no observable shared "
-              "state every thread's output equals its solo/sequential output, and if steps write only synchronised shared "
-              "locations no trace has a race (Props/C07.lean, induction on the schedule). The hypothesis is discharged by "
-              "`decide` for the write channels (`mutable`, const_cast, non-const calls via pointer members, statics, lazily "
-              "headed containers) that the translator finds in the classes reachable from StylesheetRoot/XalanSourceTreeDocument/"
-              "XercesDocumentWrapper in the current tree, under a hand-kept classification (translate/c07_allow.tsv); partial "
-              "(see level_note). Tied to the code by a TSan build of the working tree running N threads over cold shared "
-              "stylesheets/sources (native, XercesDOMWrapperParsedSource, parseSource(..,useXercesDOM)) for generated stylesheets "
-              "covering keys, xsl:number, document(), format-number, sort, id(), declared and undeclared; negative controls "
-              "(XercesParserLiaison with thread safety off) must race where the model says.")
-LEVEL_NOTE = ("Trusted: Lean kernel; axioms propext/Classical.choice/Quot.sound only; translate/c07_share.py (regex inventory, "
-              "cross-checked class by class against the clang AST in the thorough tier, but not a completeness proof: writes "
-              "through pointer members are tracked one call deep, Xerces/ICU internals not at all); the classification of each "
-              "channel in translate/c07_allow.tsv (C++ facts read off the code, validated by the TSan runs, bounded by generator "
-              "coverage); the C++ memory model, the compiler and ThreadSanitizer itself are modelled-not-verified; libxerces-c/ICU "
-              "are not instrumented (races wholly inside them are invisible). Theorems over the table are `_partial` for these "
-              "reasons. Two genuine defects were found and repaired in /repo (fix: d0cd23c lazy list heads of a shared source "
-              "tree document; fix: 8b7d92c non-thread-safe Xerces parsed source); `lazy_listhead_interference_counterexample` "
-              "keeps the first one as a proved counterexample of the pre-fix code; both are replayed on every run.")
+TECHNIQUE = ("Lean 4: (i) theorems for every machine/thread count/program/schedule (induction on the schedule): read-only or "
+             "observationally transparent sharing => each thread's result equals its solo/sequential result; writes only to "
+             "synchronised locations => no race; (ii) `decide` over an access table regenerated from the source on every run "
+             "(write channels of const execution + process-wide state reachable from the per-thread objects) under a hand-kept "
+             "classification. ThreadSanitizer enumeration (N threads, cold shared objects, private per-transformer configuration, "
+             "outputs vs sequential run, negative controls) validates the classification and the real library")
+LEVEL_TEXT = ("Carried by Lean theorems (Props/C07.lean): for any machine, N, programs and schedule, if no step changes observable "
+              "shared state every thread ends with its sequential private state and output (noninterference, "
+              "interleaving_eq_sequential, sequential_is_solo), and if steps write only synchronised shared locations no trace has "
+              "a race (race_free). Carried by `decide` over the table regenerated from the current tree (execution_readonly_partial, "
+              "transform_touches_no_process_table_partial, table_race_free_partial): every construct through which const execution "
+              "could write a shared object (mutable members, const_casts, non-const calls through pointer members, local statics, "
+              "lazily headed containers) or through which the per-thread objects (XalanTransformer, XSLTEngineImpl, the execution "
+              "contexts, the env-support classes, StylesheetRoot::process) reach a process-wide variable is listed and classified as "
+              "no unsynchronised shared write. Carried by ThreadSanitizer enumeration only: that each classification is true of the "
+              "C++, that the inventory misses nothing, and the behaviour of the built library (generated stylesheets over keys, "
+              "xsl:number, document(), format-number, sort, id(), extension functions... x native / thread-safe Xerces / "
+              "parseSource-Xerces sources x sharing kinds x private configuration; byte-equal outputs; any report = violation with "
+              "replay).")
+LEVEL_NOTE = ("Partial proof. Trusted: Lean kernel; axioms propext/Classical.choice/Quot.sound only; translate/c07_share.py "
+              "(regular-expression inventory and call graph; cross-checked class by class and edge by edge against clang's typed "
+              "AST in the thorough tier; not a completeness proof: writes through pointer members are tracked one call deep, the call "
+              "graph stops at the interpreter, Xerces/ICU are opaque); translate/c07_allow.tsv (one hand-kept C++ fact per table "
+              "entry: per-thread instance, construction only, guarded by m_mappingMode, mutex, init/terminate only, ...), validated "
+              "only by the TSan runs and so bounded by generator coverage; ThreadSanitizer (gcc 12) as race oracle; the C++ memory "
+              "model and the compiler are modelled-not-verified; libxerces-c/ICU are not instrumented (races wholly inside them are "
+              "invisible). A guard broken without a new channel (e.g. a lock removed) is detected by TSan alone. Two genuine defects "
+              "were found and repaired in /repo (fix: d0cd23c, fix: 8b7d92c); lazy_listhead_interference_counterexample keeps the "
+              "first as a proved counterexample of the pre-fix code; both witnesses are replayed on every run.")
 DESIGN_REF = "DESIGN.md section 5, C07; design/C07.md"
 
 P = "XalanModel.Props.C07."
@@ -384,7 +390,7 @@ def run(ctx):
     if ctx.thorough:
         nsheets, nsources, nthreads, rounds, nruns = 400, 4, 12, 2, 1100
     else:
-        nsheets, nsources, nthreads, rounds, nruns = 60, 2, 8, 2, 110
+        nsheets, nsources, nthreads, rounds, nruns = 60, 2, 8, 2, 90
     sheets, sources = write_case_files(work, r, nsheets, nsources)
 
     # ---- check that every stylesheet compiles and every source parses (in the plain build)
@@ -560,8 +566,8 @@ def run(ctx):
     chunks = exec_runs(h_tsan, True, runs, nthreads, rounds, "tsan")
     judge(chunks, True, nthreads, rounds, "tsan")
     # the same runs against the normal build, more threads and rounds, outputs only
-    chunks2 = exec_runs(h_plain, False, runs, nthreads * 2, rounds * (4 if ctx.thorough else 3), "plain")
-    judge(chunks2, False, nthreads * 2, rounds * (4 if ctx.thorough else 3), "plain")
+    chunks2 = exec_runs(h_plain, False, runs, nthreads * 2, rounds * (4 if ctx.thorough else 2), "plain")
+    judge(chunks2, False, nthreads * 2, rounds * (4 if ctx.thorough else 2), "plain")
     ctx.extra["tsan_reports_outside_instrumented_code"] = outside
     ctx.extra["tsan_distinct_report_keys"] = sorted(seen_keys)
 
